@@ -127,7 +127,7 @@ theorem step_inv {σ σ' : St} {i : Nat} (h : CInv σ) (hs : step σ i = some σ
       rw [e1] at hR
       refine linearize_inv h σ.sys (.set t k c) _ _ σ.hzLock hp.2 hnr hR hw ⟨t, hp.1, Frame.rfl' _ _⟩
         (fun _ _ hj => hj) (lin_lock h hpc (by intro o; simp) _ _ _ _) ?_
-      intro _; show some (σ.sys.set t k c).2 = _; rw [e]
+      refine ret_of_wit ?_; show some (σ.sys.set t k c).2 = _; rw [e]
     · rename_i hg
       split at hs
       · rename_i hk
@@ -137,7 +137,7 @@ theorem step_inv {σ σ' : St} {i : Nat} (h : CInv σ) (hs : step σ i = some σ
         rw [e1] at hR
         refine linearize_inv h σ.sys (.set t "" c) _ _ σ.hzLock hp.2 hnr hR hw ⟨t, hp.1, Frame.rfl' _ _⟩
           (fun _ _ hj => hj) (lin_lock h hpc (by intro o; simp) _ _ _ _) ?_
-        intro _; show some (σ.sys.set t "" c).2 = _; rw [e]
+        refine ret_of_wit ?_; show some (σ.sys.set t "" c).2 = _; rw [e]
       · rename_i hk
         simp only [Option.some.injEq] at hs; subst hs
         exact goto_inv h _ (notUnlock_of hpc (by intro o; simp)) ⟨hp.1, hp.2, isSome_of_not_isNone hg, hk⟩
@@ -155,7 +155,7 @@ theorem step_inv {σ σ' : St} {i : Nat} (h : CInv σ) (hs : step σ i = some σ
     rw [e1] at hR
     refine linearize_inv h _ (.set t k c) _ _ σ.hzLock hp.2.1 rfl hR hw ⟨t, hp.1, frame_storeSet isys t k c⟩
       (fun _ _ hj => hj) (lin_lock h hpc (by intro o; simp) _ _ _ _) ?_
-    intro _; show some (σ.sys.set t k c).2 = _; rw [e]
+    refine ret_of_wit ?_; show some (σ.sys.set t k c).2 = _; rw [e]
   | delGuard t k =>
     rw [hpc] at hp
     simp only [step, hpc] at hs
@@ -169,7 +169,7 @@ theorem step_inv {σ σ' : St} {i : Nat} (h : CInv σ) (hs : step σ i = some σ
       rw [e1] at hR
       refine linearize_inv h σ.sys (.del t k) _ _ σ.hzLock hp.2 rfl hR hw ⟨t, hp.1, Frame.rfl' _ _⟩
         (fun _ _ hj => hj) (lin_lock h hpc (by intro o; simp) _ _ _ _) ?_
-      intro _; show some (σ.sys.del t k).2 = _; rw [e]
+      refine ret_of_wit ?_; show some (σ.sys.del t k).2 = _; rw [e]
     · rename_i hg
       simp only [Option.some.injEq] at hs; subst hs
       exact goto_inv h _ (notUnlock_of hpc (by intro o; simp)) ⟨hp.1, hp.2, isSome_of_not_isNone hg⟩
@@ -183,7 +183,7 @@ theorem step_inv {σ σ' : St} {i : Nat} (h : CInv σ) (hs : step σ i = some σ
     rw [e1] at hR
     refine linearize_inv h _ (.del t k) _ _ σ.hzLock hp.2.1 rfl hR hw ⟨t, hp.1, frame_storeDel isys t k⟩
       (fun _ _ hj => hj) (lin_lock h hpc (by intro o; simp) _ _ _ _) ?_
-    intro _; show some (σ.sys.del t k).2 = _; rw [e]
+    refine ret_of_wit ?_; show some (σ.sys.del t k).2 = _; rw [e]
   | getReg t k =>
     rw [hpc] at hp
     simp only [step, hpc] at hs
@@ -191,7 +191,7 @@ theorem step_inv {σ σ' : St} {i : Nat} (h : CInv σ) (hs : step σ i = some σ
     · rename_i hg
       simp only [Option.some.injEq] at hs; subst hs
       refine witness_inv h _ _ (notUnlock_of hpc (by intro o; simp)) (get_witness h hp.2) ?_
-      intro _; show some (σ.sys.get t k) = _
+      refine ret_of_wit ?_; show some (σ.sys.get t k) = _
       simp [Sys.get, hg]
     · rename_i tx hg
       simp only [Option.some.injEq] at hs; subst hs
@@ -217,7 +217,7 @@ theorem step_inv {σ σ' : St} {i : Nat} (h : CInv σ) (hs : step σ i = some σ
       rw [hv] at hs hget
       simp only [Option.some.injEq] at hs; subst hs
       refine witness_inv h _ _ (notUnlock_of hpc (by intro o; simp)) (get_witness h hop) ?_
-      intro _; show some (σ.sys.get tx.id k) = _; rw [hget]
+      refine ret_of_wit ?_; show some (σ.sys.get tx.id k) = _; rw [hget]
     | some v =>
       rw [hv] at hs hget
       simp only [] at hs hget
@@ -228,7 +228,7 @@ theorem step_inv {σ σ' : St} {i : Nat} (h : CInv σ) (hs : step σ i = some σ
       · rename_i hpv
         simp only [Option.some.injEq] at hs; subst hs
         refine witness_inv h _ _ (notUnlock_of hpc (by intro o; simp)) (get_witness h hop) ?_
-        intro _; show some (σ.sys.get tx.id k) = _
+        refine ret_of_wit ?_; show some (σ.sys.get tx.id k) = _
         rw [hget]
         subst hpv
         have := hprev.2
@@ -246,8 +246,7 @@ theorem step_inv {σ σ' : St} {i : Nat} (h : CInv σ) (hs : step σ i = some σ
     split at hs
     · rename_i c hc
       simp only [Option.some.injEq] at hs; subst hs
-      refine goto_inv h _ (notUnlock_of hpc (by intro o; simp)) ?_
-      intro _
+      refine goto_inv h _ (notUnlock_of hpc (by intro o; simp)) (ret_of_wit ?_)
       rw [hwit]
       rcases hcont with e | e
       · rw [e] at hc; cases hc
@@ -261,8 +260,9 @@ theorem step_inv {σ σ' : St} {i : Nat} (h : CInv σ) (hs : step σ i = some σ
     split at hs
     · rename_i hg
       simp only [Option.some.injEq] at hs; subst hs
-      refine witness_inv h _ _ (notUnlock_of hpc (by intro o; simp)) (keys_witness h hp.2) ?_
-      intro hk; simp [isKeys, hp.2] at hk
+      refine witness_inv h _ _ (notUnlock_of hpc (by intro o; simp)) (keys_witness h hp.2) ⟨?_, ?_⟩
+      · intro hk; simp [isKeys, hp.2] at hk
+      · intro ks e; cases e
     · rename_i tx hg
       simp only [Option.some.injEq] at hs; subst hs
       have hid : tx.id = t := by
@@ -274,23 +274,38 @@ theorem step_inv {σ σ' : St} {i : Nat} (h : CInv σ) (hs : step σ i = some σ
   | keysOwn tx =>
     rw [hpc] at hp
     simp only [step, hpc, Option.some.injEq] at hs; subst hs
-    exact goto_inv h _ (notUnlock_of hpc (by intro o; simp)) hp
+    exact goto_inv h _ (notUnlock_of hpc (by intro o; simp)) ⟨hp.1, hp.2, kOwnOk_now isys tx⟩
   | keysBase tx own =>
     rw [hpc] at hp
     simp only [step, hpc, Option.some.injEq] at hs; subst hs
-    refine witness_inv h _ _ (notUnlock_of hpc (by intro o; simp)) (keys_witness h hp.2) ?_
-    show isKeys (σ.thr i).op = true
-    simp [isKeys, hp.2]
+    refine witness_inv h _ _ (notUnlock_of hpc (by intro o; simp)) (keys_witness h hp.2.1) ⟨?_, ?_⟩
+    · show isKeys (σ.thr i).op = true
+      simp [isKeys, hp.2.1]
+    · exact keysOk_now isys hp.1.2 hp.2.2
   | keysContent todo acc =>
     rw [hpc] at hp
     cases todo with
     | nil =>
       simp only [step, hpc, Option.some.injEq] at hs; subst hs
-      refine goto_inv h _ (notUnlock_of hpc (by intro o; simp)) ?_
-      intro hk; rw [hp] at hk; cases hk
+      obtain ⟨hk1, W, hw, hacc, _⟩ := hp
+      refine goto_inv h _ (notUnlock_of hpc (by intro o; simp)) ⟨?_, ?_⟩
+      · intro hk; rw [hk1] at hk; cases hk
+      · intro ks e
+        have e' : ks = sortKeys acc := by cases e; rfl
+        subst e'
+        exact ⟨W, hw, fun k hk => hacc k ((mem_sortKeys k acc).mp hk)⟩
     | cons v todo =>
       simp only [step, hpc, Option.some.injEq] at hs; subst hs
-      exact goto_inv h _ (notUnlock_of hpc (by intro o; simp)) hp
+      obtain ⟨hk1, W, hw, hacc, htodo⟩ := hp
+      refine goto_inv h _ (notUnlock_of hpc (by intro o; simp)) ⟨hk1, W, hw, ?_, ?_⟩
+      · intro k hk
+        by_cases hs : (σ.sys.hasContent v.cid).isSome = true
+        · simp only [hs, if_true, List.mem_append, List.mem_singleton] at hk
+          rcases hk with hk | hk
+          · exact hacc k hk
+          · subst hk; exact (htodo v (by simp)).2 hs
+        · simp only [hs, if_false] at hk; exact hacc k hk
+      · intro u hu; exact htodo u (List.mem_cons_of_mem _ hu)
   | beginLock t lvl =>
     rw [hpc] at hp
     simp only [step, hpc] at hs
@@ -320,21 +335,21 @@ theorem step_inv {σ σ' : St} {i : Nat} (h : CInv σ) (hs : step σ i = some σ
     refine h.of_step g hthr h.rel h.outs ?_ (by intro j hj; cases hj)
     show TInv _ i (({ σ.goto i (.ret o) with hzLock := none } : St).thr i)
     rw [show ({ σ.goto i (.ret o) with hzLock := none } : St).thr i = { σ.thr i with pc := .ret o } from setThr_self σ i _]
-    exact ⟨ht.invLe, ht.wit, fun _ => hp.2⟩
+    exact ⟨ht.invLe, ht.wit, ret_of_wit hp.2⟩
   | commitRun t =>
     rw [hpc] at hp
     simp only [step, hpc, Option.some.injEq] at hs; subst hs
     have hm : isMut (.commit t) = true := rfl
     obtain ⟨hR, hw⟩ := op_R h (.commit t) hm
     exact linearize_inv h (σ.sys.commit t).1 (.commit t) (σ.sys.commit t).2 _ σ.hzLock hp.2 rfl hR hw
-      ⟨t, hp.1, frame_commit isys t⟩ (fun _ _ hj => hj) (lin_lock h hpc (by intro o; simp) _ _ _ _) (fun _ => rfl)
+      ⟨t, hp.1, frame_commit isys t⟩ (fun _ _ hj => hj) (lin_lock h hpc (by intro o; simp) _ _ _ _) (ret_of_wit rfl)
   | rollbackRun t =>
     rw [hpc] at hp
     simp only [step, hpc, Option.some.injEq] at hs; subst hs
     have hm : isMut (.rollback t) = true := rfl
     obtain ⟨hR, hw⟩ := op_R h (.rollback t) hm
     exact linearize_inv h (σ.sys.rollback t).1 (.rollback t) (σ.sys.rollback t).2 _ σ.hzLock hp.2 rfl hR hw
-      ⟨t, hp.1, frame_rollback isys t⟩ (fun _ _ hj => hj) (lin_lock h hpc (by intro o; simp) _ _ _ _) (fun _ => rfl)
+      ⟨t, hp.1, frame_rollback isys t⟩ (fun _ _ hj => hj) (lin_lock h hpc (by intro o; simp) _ _ _ _) (ret_of_wit rfl)
   | gcHorizon =>
     rw [hpc] at hp
     simp only [step, hpc] at hs
@@ -378,7 +393,7 @@ theorem step_inv {σ σ' : St} {i : Nat} (h : CInv σ) (hs : step σ i = some σ
     cases todo with
     | nil =>
       simp only [step, hpc, Option.some.injEq] at hs; subst hs
-      exact finish_step h _ (notUnlock_of hpc (by intro o; simp)) (fun _ => hp.2)
+      exact finish_step h _ (notUnlock_of hpc (by intro o; simp)) (ret_of_wit hp.2)
     | cons v todo =>
       simp only [step, hpc, Option.some.injEq] at hs; subst hs
       exact delete_step h _ (notUnlock_of hpc (by intro o; simp)) hp.1 (fun hj => ⟨hj, hp.2⟩)
@@ -388,7 +403,7 @@ theorem step_inv {σ σ' : St} {i : Nat} (h : CInv σ) (hs : step σ i = some σ
     split at hs
     · simp only [Option.some.injEq] at hs; subst hs
       exact linearize_inv h σ.sys .drain .ok _ σ.hzLock hp rfl h.rel rfl
-        ⟨mainTx, allowed_main σ i, Frame.rfl' _ _⟩ (fun _ _ hj => hj) (lin_lock h hpc (by intro o; simp) _ _ _ _) (fun _ => rfl)
+        ⟨mainTx, allowed_main σ i, Frame.rfl' _ _⟩ (fun _ _ hj => hj) (lin_lock h hpc (by intro o; simp) _ _ _ _) (ret_of_wit rfl)
     · rename_i job rest hpend
       simp only [Option.some.injEq] at hs; subst hs
       have hthr : ∀ j, j ≠ i → ({ σ.goto i (.workDelete job) with sys := { σ.sys with pending := rest }, busy := σ.busy ++ [(i, job)] } : St).thr j = σ.thr j := fun j hij => setThr_other σ i _ hij
